@@ -54,6 +54,11 @@ func valueFieldByName(v reflect.Value, fields []string) (out reflect.Value, ok b
 		return valueFieldByName(out, fields[1:])
 	}
 
+	// the path continues after a field which has no sub-field
+	if len(fields) > 1 {
+		return reflect.Value{}, false
+	}
+
 	return out, out.IsValid()
 }
 
